@@ -90,6 +90,8 @@ Definition ecmp_key (a b : key) : bool :=
   | _, _ => false
   end.
 
+Definition equal_cost (a b : wpath) : bool := ecmp_key (key_of a) (key_of b).
+
 (* the ECMP count as a function of the sorted key list *)
 Fixpoint ecmp_count_keys (ks : list key) : N :=
   match ks with
